@@ -16,6 +16,7 @@
 -/
 import Pakhi.Lemmas.Render
 import Pakhi.Lemmas.OutMono
+import Pakhi.Lemmas.OutFrame
 
 namespace Pakhi
 namespace C18
@@ -165,5 +166,29 @@ theorem printNoEOL_statement_whole (prog : List Stmt) (f : Nat) (e : Expr) (m : 
   simp at h4; obtain ⟨rfl, rfl⟩ := h4
   obtain ⟨t, ht, ha⟩ := print_statement _ f false v s1 s2 h3
   exact ⟨rfl, v, s1, t, h1, ht, by simpa using ha⟩
+/-- **output is write-only**: nothing ever reads what has been printed.  A run started with older output `b` underneath what `s`
+    already holds behaves exactly like the run started from `s` — the same statements, values, heap, scopes, file system, fuel, the
+    same error — and ends with the same new output on top of `b`; for every program, state, collection schedule and fuel.
+    (`St.under b` puts `b` under the output of a state, `Res.under` under the output of the final state or of the error.) -/
+theorem output_is_write_only (prog : List Stmt) (b : List Out) (g : GcMode) (f k : Nat) (cur : List Stmt) (s : St) :
+    runLoop prog g f k cur (s.under b) = (runLoop prog g f k cur s).under (·.under b) b :=
+  runLoop_under prog b g f k cur s
+
+/-- the same for one statement, one expression and one function call -/
+theorem output_is_write_only_step (prog : List Stmt) (b : List Out) (f : Nat) (cur : List Stmt) (s : St) :
+    exec prog f cur (s.under b) = (exec prog f cur s).under (fun x => (x.1, x.2.under b)) b := (ofInv prog b f).exec cur s
+theorem output_is_write_only_eval (prog : List Stmt) (b : List Out) (f : Nat) (cur : List Stmt) (e : Expr) (s : St) :
+    eval prog f cur e (s.under b) = (eval prog f cur e s).under (fun x => (x.1, x.2.under b)) b := (ofInv prog b f).eval cur e s
+
+/-- hence what a run adds to the output is computed from a clean slate: the run from `s` is the run from `s` with its output
+    emptied, with `s.out` put back underneath -/
+theorem new_output_from_clean_slate (prog : List Stmt) (g : GcMode) (f k : Nat) (cur : List Stmt) (s : St) :
+    runLoop prog g f k cur s = (runLoop prog g f k cur { s with out := [] }).under (·.under s.out) s.out := by
+  have h := runLoop_under prog s.out g f k cur { s with out := [] }
+  have e : ({ s with out := [] } : St).under s.out = s := by simp [St.under]
+  rw [e] at h; exact h
+
+example : ({ (St.init ⟨[], [], []⟩) with out := [.text ['a']] } : St) = (St.init ⟨[], [], []⟩).under [.text ['a']] := rfl
+
 end C18
 end Pakhi
